@@ -155,3 +155,27 @@ Example C19_stream_example :
     = Ok [8;9;10;11;12;13;14;15;24;26;23;24;25;26;27;28]%N /\
   p7_block_decrypt 8 (toy_dec 8 7) 9 iv (mkSrc [8;9;10;11;12;13;14;15;24;26;23;24;25;26;27;28]%N [(5,false)]) = Ok data.
 Proof. vm_compute. split; reflexivity. Qed.
+
+(* ... instantiated with CBC over ANY block permutation E/D (D (E b) = b on blocks) - what
+   cipher.NewCBCEncrypter / NewCBCDecrypter over sm4.NewCipher are (C05 proves SM4 is such a
+   permutation, C11 that CBC is the textbook mode): the helper round trip holds for every data,
+   IV and pair of source schedules. *)
+From GmsmVerif Require Import Pad.CBCInstance.
+
+Theorem C19_stream_roundtrip_cbc :
+  forall bs (E D : list N -> list N) iv data sched1 sched2 fuel1 fuel2,
+    1 <= bs <= 255 -> BUF mod bs = 0 ->
+    (forall b, length b = bs -> length (E b) = bs) ->
+    (forall b, length b = bs -> D (E b) = b) ->
+    length iv = bs ->
+    fuel1 >= length (pkcs7_pad bs data) / BUF + length sched1 + 3 ->
+    fuel2 >= length (pkcs7_pad bs data) / BUF + length sched2 + 3 ->
+    exists ct, p7_block_enc bs (cbc_enc bs E) fuel1 iv (mkSrc data sched1) = Ok ct /\
+               p7_block_decrypt bs (cbc_dec bs D) fuel2 iv (mkSrc ct sched2) = Ok data.
+Proof.
+  intros bs E D iv data sched1 sched2 fuel1 fuel2 Hbs Hdiv HEl HDE Hiv Hf1 Hf2.
+  destruct (cbc_inverse bs E D ltac:(lia) HEl HDE iv Hiv) as [Hlen Hinv].
+  apply (C19_stream_roundtrip (list N) (list N) bs (cbc_enc bs E) (cbc_dec bs D) iv iv data sched1 sched2 fuel1 fuel2
+           Hbs Hdiv (cbc_enc_stream_ok bs E ltac:(lia)) (cbc_dec_stream_ok bs D ltac:(lia)) Hlen Hinv Hf1 Hf2).
+Qed.
+Print Assumptions C19_stream_roundtrip_cbc.
